@@ -88,7 +88,9 @@ def candidates(case):
             yield c
 
 
-def shrink(case, still_fails, max_rounds=400, gen=candidates):
+def shrink(case, still_fails, max_rounds=400, gen=candidates, max_s=120.0):
+    import time
+    t_end = time.time() + max_s
     cur = case
     rounds = 0
     progress = True
@@ -96,7 +98,8 @@ def shrink(case, still_fails, max_rounds=400, gen=candidates):
         progress = False
         for cand in gen(cur):
             rounds += 1
-            if rounds > max_rounds:
+            if rounds > max_rounds or time.time() > t_end:
+                rounds = max_rounds + 1
                 break
             try:
                 if still_fails(cand):
